@@ -1,6 +1,7 @@
 import ThruVerif.Model.Decision
 import ThruVerif.Gen.Shapes
 import ThruVerif.Props.C01
+import ThruVerif.Proofs.Once
 /-!
 # C02 — No false success under faults
 
@@ -70,3 +71,45 @@ theorem C02_source_recv_loop : TV.Gen.Shapes.recv_main_loop =
      "ev := <-controlCh :: ev.typ == controlTypeEnd | ev.typ == controlTypeEnd ; completed >= totalFiles | err != nil"] := by decide
 
 end TV.C02
+
+namespace TV.Once
+
+/-! ### `completedCount` counts files, not finalisation attempts (`Model/Once`) -/
+
+/-- **C02_completed_counts_distinct_files.** However many goroutines try to finalise however many files, in any interleaving of
+their gate and count sections: `completedCount` is the number of *distinct* files finalised with verdict ok. -/
+theorem C02_completed_counts_distinct_files (as : List Step) (s : St) (h : run true init as = some s) :
+    s.completed = s.counted.length ∧ s.counted.Nodup ∧ ∀ f ∈ s.counted, f ∈ s.done := by
+  have hI := inv_run inv_init h
+  refine ⟨hI.count, (List.nodup_append.mp hI.nodup).2.1, fun f hf => hI.isdone f (List.mem_append_right _ hf)⟩
+
+/-- **C02_success_means_every_file.** Hence the test every success exit of the receiver makes (`completedCount >= totalFiles`,
+`C02_receiver_decision`) holds only when every file of the manifest was finalised ok: the files are `0 .. total-1`. -/
+theorem C02_success_means_every_file (total : Nat) (as : List Step) (s : St) (h : run true init as = some s)
+    (hfiles : ∀ f ok, Step.gate f ok ∈ as → f < total) (hc : s.completed ≥ total) : ∀ f, f < total → f ∈ s.counted := by
+  obtain ⟨hcount, hnd, _⟩ := C02_completed_counts_distinct_files as s h
+  have hlt : ∀ f ∈ s.counted, f < total := fun f hf =>
+    counted_from_gates total inv_init (by simp [init]) hfiles h f (List.mem_append_right _ hf)
+  have hsub : s.counted ⊆ List.range total := fun f hf => List.mem_range.mpr (hlt f hf)
+  have hsp : s.counted.Subperm (List.range total) := List.subperm_of_subset hnd hsub
+  have hperm : s.counted.Perm (List.range total) := hsp.perm_of_length_le (by simp; omega)
+  intro f hf
+  exact hperm.symm.subset (List.mem_range.mpr hf)
+
+/-- premises satisfiable: two files, file 0 finalised from three goroutines at once (two of them find the flag set) -/
+example : ∃ s, run true init [.gate 0 true, .gate 0 true, .gate 1 true, .gate 0 false, .count 1 true, .count 0 true] = some s ∧
+    s.completed = 2 ∧ s.counted = [0, 1] := ⟨_, rfl, rfl, rfl⟩
+
+/-- test and set of the flag in two critical sections (a seeded change): one file finalised from the data reader and from the
+control loop is counted twice - `completedCount >= totalFiles` then holds for two files although file 1 was never finalised -/
+theorem C02_double_count_without_atomic_gate :
+    ∃ s, run false init [.gate 0 true, .gate 0 true, .set 0 true, .set 0 true, .count 0 true, .count 0 true] = some s ∧
+      s.completed = 2 ∧ 1 ∉ s.done := ⟨_, rfl, rfl, by decide⟩
+
+open TV.Gen.Shapes in
+/-- `finalizeFile` tests and sets `state.done` in one critical section before anything else, and counts afterwards -/
+theorem C02_source_finalize_once :
+    finalize_gate = ["state.mu.Lock()", "if state.done { state.mu.Unlock() return }", "state.done = true", "state.mu.Unlock()"] ∧
+    finalize_done_sets = ["state.done = true", "completedCount++"] := by decide
+
+end TV.Once
